@@ -430,8 +430,8 @@ func TestC11Hostile(t *testing.T) {
 			nburst++
 			n := pick(t, []int{40, 60, 120, 250}, "howmany")
 			d := g.DirRef(t)
-			x.logf("%d CREATE/MKDIR/SYMLINK requests in %s with names of 200 bytes", n, d.Desc)
-			long := strings.Repeat("N", 200)
+			x.logf("%d CREATE/MKDIR/SYMLINK requests in %s with names beyond the limit", n, d.Desc)
+			long := strings.Repeat("N", int(x.M.Lim.NameMax)+40)
 			bad := ""
 			err := x.call(func() {
 				api := x.S.API()
